@@ -12,6 +12,7 @@ functions, raising or not), every triple list, every configuration and every sch
 import CobaVerif.Lemmas.C01
 import CobaVerif.Generated.C01Config
 import CobaVerif.Generated.C01Seeds
+import CobaVerif.Generated.C01Rej
 
 namespace Coba.C01
 
@@ -450,5 +451,90 @@ theorem rejection_seed_sites_agree (own : Option Nat) (exp : Nat) :
     Coba.Generated.C01.rejLearnerSeed own exp = Coba.Generated.C01.seqSeed own exp ∧
     Coba.Generated.C01.rejRngSeed own exp = Coba.Generated.C01.seqSeed own exp := by
   constructor <;> (cases own <;> rfl)
+
+/-! ## phase 6: the built-in `RejectionCB` inside the experiment model, over the C05 stream
+
+`seqCompsR w`: evaluator objects are `SequentialCB` objects (phase 4/5) or `RejectionCB` objects (`w.rej v = some rc`,
+`rejEvaluate`: peek of 100, validation, data-adaptive start value, per interaction score / insort / one draw of
+`CobaRandom(seed)` / accept-learn-record / percentile update). -/
+
+section phase6
+variable {σ V R : Type} [DecidableEq V] [Coba.C06.RewardFn R V]
+
+/-- `Experiment.run` over SequentialCB **and RejectionCB** objects gives the spec Result in every configuration and schedule -/
+theorem run_eq_spec_rejectionCB (w : SeqWorldR σ V R P) (cfg : Cfg) (picks : List Nat) (seed : Nat)
+    (ts : List Triple) : run (seqCompsR w) cfg picks seed ts = resultS (seqCompsR w) seed ts :=
+  run_eq_spec' (seqCompsR w) cfg picks seed ts
+
+/-- hence it does not depend on the execution configuration or the schedule -/
+theorem rejectionCB_config_independent (w : SeqWorldR σ V R P) (cfg cfg' : Cfg) (picks picks' : List Nat)
+    (seed : Nat) (ts : List Triple) :
+    run (seqCompsR w) cfg picks seed ts = run (seqCompsR w) cfg' picks' seed ts := by
+  rw [run_eq_spec' (seqCompsR w) cfg picks seed ts, run_eq_spec' (seqCompsR w) cfg' picks' seed ts]
+
+/-- the extension is conservative: a world without RejectionCB objects is the phase-5 world -/
+theorem rejectionCB_conservative (w0 : SeqWorldX σ V R P) : seqCompsR ⟨w0, fun _ => none⟩ = seqCompsX w0 :=
+  seqCompsR_plain' w0
+
+/-- the rows of a listed triple whose evaluator is a RejectionCB are, numbered from 1, the rows `RejectionCB.evaluate`
+yields on the learner's PRISTINE state with a generator FRESHLY seeded with the evaluator's seed, or the experiment seed
+when it has none (none when it raises) — in every configuration, whatever else the experiment lists: neither the
+generator, nor `Q`, nor the multiplier `c` is shared between evaluations -/
+theorem rejectionCB_rows (w : SeqWorldR σ V R P) (cfg : Cfg) (picks : List Nat) (seed : Nat) (ts : List Triple)
+    (t : Triple) (ht : t ∈ ts) (rc : RejConfig) (hv : w.rej t.2.2 = some rc)
+    (inter : List (Coba.C06.Dict (Coba.C06.Fld V R))) (henv : w.x.base.envRows t.1 = .ok inter) :
+    (run (seqCompsR w) cfg picks seed ts).rowsOf (idKey ts t) =
+      match (rejEvaluate rc (w.x.base.learner t.2.1) (w.x.base.batch t.1) inter (w.x.base.init t.2.1)
+              (Coba.C05.normInt (Int.ofNat ((w.x.base.valSeed t.2.2).getD seed)))).1 with
+      | .ok rows => numbered rows
+      | .error _ => [] := rejectionCB_rows' w cfg picks seed ts t ht rc hv inter henv
+
+/-- a failing read costs exactly that triple's rows -/
+theorem rejectionCB_read_failure (w : SeqWorldR σ V R P) (cfg : Cfg) (picks : List Nat) (seed : Nat) (ts : List Triple)
+    (t : Triple) (ht : t ∈ ts) (rc : RejConfig) (hv : w.rej t.2.2 = some rc) (err : Err)
+    (henv : w.x.base.envRows t.1 = .error err) :
+    (run (seqCompsR w) cfg picks seed ts).rowsOf (idKey ts t) = [] :=
+  rejectionCB_read_failure' w cfg picks seed ts t ht rc hv err henv
+
+/-- a triple evaluated by a SequentialCB object keeps exactly its phase-5 rows when RejectionCB objects are added -/
+theorem sequentialCB_rows_beside_rejectionCB (w : SeqWorldR σ V R P) (cfg cfg' : Cfg) (picks picks' : List Nat) (seed : Nat)
+    (ts : List Triple) (t : Triple) (ht : t ∈ ts) (hv : w.rej t.2.2 = none) :
+    (run (seqCompsR w) cfg picks seed ts).rowsOf (idKey ts t) =
+      (run (seqCompsX w.x) cfg' picks' seed ts).rowsOf (idKey ts t) :=
+  sequentialCB_rows_beside_rejectionCB' w cfg cfg' picks picks' seed ts t ht hv
+
+/-- `Q` stays sorted under `insort` (so `percentile(Q, cpct, sort=False)` reads a sorted list) … -/
+theorem rejection_Q_sorted (x : Rat) (q : List Rat) (h : q.Pairwise (· ≤ ·)) : (insortR x q).Pairwise (· ≤ ·) :=
+  insortR_sorted' x q h
+
+/-- … and holds exactly the ratios inserted so far -/
+theorem rejection_Q_perm (x : Rat) (q : List Rat) : (insortR x q).Perm (x :: q) := insortR_perm x q
+
+omit [DecidableEq V] [Coba.C06.RewardFn R V] in
+/-- rejection sampling records at most one row per interaction, for every learner, generator state and configuration -/
+theorem rejection_rows_le (rc : RejConfig) (L : Coba.C06.Learner σ V) (bs : Option Nat)
+    (env : List (Coba.C06.Dict (Coba.C06.Fld V R))) (s : σ) (g : Nat) (rows : List (Coba.C06.Row V R)) (s' : σ)
+    (h : rejEvaluate rc L bs env s g = (.ok rows, s')) : rows.length ≤ env.length :=
+  rejEvaluate_rows_le' rc L bs env s g rows s' h
+
+omit [DecidableEq V] [Coba.C06.RewardFn R V] in
+/-- a learner without `score`, a batched environment or a first interaction without the logged fields is refused
+before the learner object is touched -/
+theorem rejection_refused_untouched (rc : RejConfig) (L : Coba.C06.Learner σ V) (bs : Option Nat)
+    (first : Coba.C06.Dict (Coba.C06.Fld V R)) (rest : List (Coba.C06.Dict (Coba.C06.Fld V R))) (s : σ) (g : Nat)
+    (h : L.hasScore = false ∨ bs.isSome = true ∨ (rejKeys.all (fun k => Coba.C06.Dict.has first k)) = false) :
+    rejEvaluate rc L bs (first :: rest) s g = (.error .raised, s) :=
+  rejEvaluate_refused' rc L bs first rest s g h
+
+example : insortR 2 [1, 2, 3] = [1, 2, 2, 3] := by decide +kernel
+example : rejPercentile [1, 2, 4] (1/4) = some (3/2) := by decide +kernel
+
+/-- translator obligations (Generated/C01Rej.lean, read off `RejectionCB.evaluate` on every run): the validated keys, the
+size of the peek, the accept comparison `<=` (`rejLoop`: `rnd.2 ≤ c * …`) and the insort guard `!=` (`if sc.2 = 0 then q else …`) -/
+theorem rejection_consts_match_source :
+    rejKeys = Coba.Generated.C01.rejKeysSrc ∧ rejPeek = Coba.Generated.C01.rejPeekSrc ∧
+    Coba.Generated.C01.rejAcceptOp = "<=" ∧ Coba.Generated.C01.rejGuardOp = "!=" := by decide
+
+end phase6
 
 end Coba.C01
